@@ -79,6 +79,7 @@ def run_many(definition, inputs, worker, tmpdir, chooser=None, mtype="STANDARD",
     def on_step(world, what):
         samples.append(sample(world, None, arns))
     info = Info()
+    info.exception = None
     steps = 0
     status = None
     while steps < max_steps:
@@ -101,7 +102,13 @@ def run_many(definition, inputs, worker, tmpdir, chooser=None, mtype="STANDARD",
             continue
         i = chooser(w, opts) if chooser else 0
         _, kind, key = opts[i]
-        w.step(kind, key)
+        try:
+            w.step(kind, key)
+        except Exception as e:      # a callback of the engine raised: the real process would stop here
+            import traceback
+            info.exception = {"step": [kind, str(key)[:200]], "error": "%s: %s" % (type(e).__name__, e), "traceback": traceback.format_exc()[-1500:]}
+            status = "exception"
+            break
         on_step(w, kind)
         steps += 1
     info.world = w
@@ -167,7 +174,7 @@ def gen_runs(rng, tmpdir, n, profile, thorough=False, mtype="STANDARD"):
         if profile == "seq":
             g = cp.Gen(rng, fanout=False)
             definition = g.machine(length=rng.randrange(1, 6))
-            worker = cp.Worker(rng.randrange(10 ** 6), failures=0.3)
+            worker = cp.Worker(rng.randrange(10 ** 6), failures=0.3, hangs=0.1)
             k = rng.choice([1, 1, 2, 3])
         elif profile == "fanout_ok":
             g = cp.Gen(rng, fanout=True, max_depth=2 if thorough else 2, retry=False)
@@ -195,7 +202,7 @@ def gen_runs(rng, tmpdir, n, profile, thorough=False, mtype="STANDARD"):
         chooser = None if sched == "canonical" else random_chooser(random.Random(sseed))
         info = run_many(definition, inputs, worker, tmpdir, chooser=chooser, mtype=mtype)
         info.schedule = sched if sched == "canonical" else "random(seed=%d)" % sseed
-        info.worker_desc = {"seed": worker.seed, "failures": worker.failures, "outcomes": {"%s %s" % k: v for k, v in worker.oracle.items()}}
+        info.worker_desc = {"seed": worker.seed, "failures": worker.failures, "hangs": worker.hangs, "outcomes": {"%s %s" % k: v for k, v in worker.oracle.items()}}
         info.profile = profile
         out.append(convert(info))
     return out
@@ -204,4 +211,4 @@ def gen_runs(rng, tmpdir, n, profile, thorough=False, mtype="STANDARD"):
 def describe(info):
     return {"profile": info.profile, "schedule": info.schedule, "definition": info.definition, "inputs": info.inputs,
             "status": info.status, "executions": len(info.arns), "steps": len(info.steps), "type": info.mtype,
-            "task_outcomes": getattr(info, "worker_desc", None)}
+            "task_outcomes": getattr(info, "worker_desc", None), "exception": getattr(info, "exception", None)}
